@@ -188,8 +188,25 @@ pub fn observe(text: &str, fuel: usize, keep_steps: bool) -> Obs {
     o
 }
 
+pub fn depth(v: &Value) -> usize {
+    match v {
+        Value::Object(m) => 1 + m.values().map(depth).max().unwrap_or(0),
+        Value::Array(a) => 1 + a.iter().map(depth).max().unwrap_or(0),
+        _ => 0,
+    }
+}
+
 fn event(src: &Value, o: &Obs, origin: &str) -> Value {
     let none = json!({"k": "none"});
+    // JSON readers on both sides stop at a nesting depth (serde_json 128, Gson 255): a run whose terms grow deeper than that
+    // is reported as "still running" (inconclusive), never judged on a truncated term
+    let too_deep = o.end.as_ref().is_some_and(|e| depth(e) > 100) || o.steps.iter().any(|s| depth(s) > 100);
+    if too_deep {
+        let mut o2 = Obs { stage: o.stage, parsed: o.parsed.clone(), accepted: o.accepted, nerr: o.nerr, first_err: String::new(), elab: o.elab.clone(), ty: o.ty.clone(),
+            steps: vec![], nsteps: o.nsteps, end: None, end_kind: "fuel".into(), hole_opened: o.hole_opened, recheck: o.recheck };
+        o2.nsteps = o.nsteps;
+        return event(src, &o2, origin);
+    }
     json!({"ev": "prog", "origin": origin, "src": o.parsed.clone().unwrap_or(none.clone()), "gen": if src.is_null() { none.clone() } else { src.clone() }, "stage": o.stage, "accepted": o.accepted, "nerr": o.nerr,
            "elab": o.elab.clone().unwrap_or(none.clone()), "ty": o.ty.clone().unwrap_or(none.clone()), "steps": o.steps, "nsteps": o.nsteps,
            "end": o.end.clone().unwrap_or(none), "endk": o.end_kind, "holes_opened": o.hole_opened, "recheck": o.recheck})
